@@ -41,7 +41,7 @@ SPECS = [
 	}
 	return bkt.GetRecordByKeyHash(ki)''')]),
  dict(name='C11.R5-negative-length', rule='C11.R5', why='seed C11/b: value size validated as a signed number',
-      edits=[('memcache/protocol.go', '		if !config.IsValidValueSize(uint32(length)) {\n			return ErrValueTooLarge\n		}\n		if length > int(config.MCConf.BodyBig) {', '		if int64(length) > config.MCConf.BodyMax {\n			return ErrValueTooLarge\n		}\n		if length > int(config.MCConf.BodyBig) {')]),
+      edits=[('memcache/protocol.go', '		if length < 0 || int64(length) > math.MaxUint32 || !config.IsValidValueSize(uint32(length)) {', '		if int64(length) > config.MCConf.BodyMax || int64(length) > math.MaxUint32 {')]),
  dict(name='C11.R5-one-terminator-byte', rule='C11.R5', why='only the LF of the terminator is checked',
       edits=[('memcache/protocol.go', "		if c1 != '\\r' || c2 != '\\n' {", "		if c2 != '\\n' {\n			_ = c1")]),
  dict(name='C11.R6-network-error-answered', rule='C11.R6', why='a network error is answered instead of closing',
